@@ -504,6 +504,40 @@ def r7(ctx: Context) -> None:
     ctx.floor("R7", "whole-key removals on multi-valued indexes", n, 4)
 
 
+def r4_gating_caches(ctx: Context) -> None:
+    """A process-local cache that GATES a backend write (`if k not in self.<cache>: self.<store>(...)`) stands for "the backend has
+    it".  Every purge must therefore clear it - on BOTH backends - or the same process never stores the entry again."""
+    repo = ctx.repo
+    n = 0
+    for bname in BASES:
+        base = repo.cls(bname)
+        gating: dict[str, tuple[FuncInfo, ast.AST]] = {}
+        for m in base.methods.values():
+            for node in walk_no_nested(m.node):
+                if isinstance(node, ast.If) and isinstance(node.test, ast.Compare) and len(node.test.ops) == 1 and isinstance(node.test.ops[0], ast.NotIn):
+                    a = self_attr(node.test.comparators[0])
+                    if a is None or not isinstance(node.test.comparators[0], ast.Attribute):
+                        continue
+                    writes = [c for st in node.body for c in ast.walk(st) if isinstance(c, ast.Call) and isinstance(c.func, ast.Attribute) and isinstance(c.func.value, ast.Name) and c.func.value.id == "self" and c.func.attr.startswith(("_store", "_set", "_upsert", "_add", "_register"))]
+                    if writes:
+                        gating[a] = (m, node)
+        for a, (m, node) in sorted(gating.items()):
+            for c in [x for x in base.all_subclasses() if x.name.startswith(("Mem", "SQLite"))]:
+                purge_fs = [f for f in [c.find_method("purge"), c.find_method("_purge")] if f is not None and not f.is_abstract]
+                # follow super().purge() / self.<helper>() one level
+                seen = list(purge_fs)
+                for p in list(purge_fs):
+                    for cc in calls_in(p.node):
+                        if isinstance(cc.func, ast.Attribute) and isinstance(cc.func.value, ast.Name) and cc.func.value.id == "self":
+                            h = c.find_method(cc.func.attr)
+                            if h is not None and h not in seen:
+                                seen.append(h)
+                cleared = any(isinstance(x, ast.Call) and call_name(x) == "clear" and self_attr(x.func) == a for p in seen for x in walk_no_nested(p.node)) or any(isinstance(x, ast.Assign) and any(isinstance(t, ast.Attribute) and t.attr == a and isinstance(t.value, ast.Name) and t.value.id == "self" for t in x.targets) for p in seen for x in walk_no_nested(p.node))
+                n += 1
+                ctx.add("R4", f"purge-clears-write-gating-cache::{c.name}::{a}", cleared, purge_fs[0].loc() if purge_fs else c.module.relpath, "" if cleared else f"{base.name}.{m.name} writes to the backend only when the key is not in self.{a}; {c.name}.purge empties the backend but keeps that cache: after a purge this process never stores the entry again, other processes (and the backend's own queries) miss it")
+    ctx.floor("R4", "write-gating caches x backends", n, 2)
+
+
 def r8(ctx: Context) -> None:
     ctx.rule("R8", "what a persistent backend reads back is what was stored: functions that rebuild an object from its stored form (from_json / _from_json / from_dict / from_dto) take a default only for a MISSING key (`d.get(k, default)`), never for a falsy value (`d.get(k) or default` turns a stored 0 / False / '' into the default - the in-memory backend, which keeps the original object, then disagrees)")
     n = 0
@@ -538,6 +572,7 @@ def run(ctx: Context) -> None:
     r5(ctx, prs, sites)
     r6(ctx, prs, sites)
     r7(ctx)
+    r4_gating_caches(ctx)
     r8(ctx)
     # R9: backend-independent logic whose errors surface differently per backend (shared rules): the wait graph's ready set
     # (C09/R2, in-memory only) and the purge registration (C03/R6: a stale purge mark makes the in-memory auto_purge raise
